@@ -46,7 +46,9 @@ from pyhf.typing import (
 
 log = logging.getLogger(__name__)
 
-FileCacheType = MutableMapping[str, Tuple[Union[IO[str], IO[bytes]], Set[str]]]
+FileCacheType = MutableMapping[
+    str, Tuple[Union[IO[str], IO[bytes]], Set[str], Tuple[int, int, int]]
+]
 MountPathType = Iterable[Tuple[Path, Path]]
 ResolverType = Callable[[str], Path]
 
@@ -116,12 +118,15 @@ def import_root_histogram(
     path = path or ''
     path = path.strip('/')
     fullpath = str(resolver(filename))
-    if fullpath not in filecache:
+    # a cached file is only reused while the file on disk is the one that was opened
+    stat = Path(fullpath).stat()
+    stamp = (stat.st_mtime_ns, stat.st_size, stat.st_ino)
+    if fullpath not in filecache or filecache[fullpath][2] != stamp:
         f = uproot.open(fullpath)
         keys = set(f.keys(cycle=False))
-        filecache[fullpath] = (f, keys)
+        filecache[fullpath] = (f, keys, stamp)
     else:
-        f, keys = filecache[fullpath]
+        f, keys, _ = filecache[fullpath]
 
     fullname = "/".join([path, name])
 
